@@ -1,6 +1,8 @@
 import GeoVerif.Model.Geocentric
 import GeoVerif.Spec.RealInst
 import GeoVerif.Proofs.Vermeille
+import GeoVerif.Proofs.Geocentric
+import GeoVerif.Proofs.GeocentricFrame
 import Mathlib.Tactic.Ring
 import Mathlib.Tactic.LinearCombination
 import Mathlib.Tactic.FieldSimp
@@ -254,7 +256,8 @@ theorem vermK_oblate_spec (a f p q : ℝ) (hf0 : 0 < f) (hf1 : f < 1) (hp : 0 < 
 **Geocentric `Reverse` inverts `Forward` on the general (Vermeille–Cardano) branch.**  Oblate ellipsoid `0 < f < 1`,
 a point off the axis and off the equatorial plane, not in the far field (`h ≤ maxrad`), non-negative discriminant
 (every point outside the evolute): the forward image of the computed `(sin φ, cos φ, sin λ, cos λ, h)` is the
-point itself.  (Trigonometric branch `disc < 0`, prolate case and the limiting branches: correspondence only.)
+point itself.  (Kept from the first deepening round; `reverse_closes` below covers every branch below the far-field threshold:
+trigonometric branch, prolate, sphere, axis, equatorial plane, singular disc / segment.)
 -/
 theorem reverse_general_closes (a f maxrad X Y Z : ℝ) (ha : 0 < a) (hf0 : 0 < f) (hf1 : f < 1)
     (hXY : X ≠ 0 ∨ Y ≠ 0) (hZ : Z ≠ 0)
@@ -333,5 +336,531 @@ example : forward (⟨1, 1/2⟩ : Ell ℝ) (reverse (⟨1, 1/2⟩ : Ell ℝ) 10 
   reverse_general_closes 1 (1/2) 10 1 0 1 (by norm_num) (by norm_num) (by norm_num) (Or.inl one_ne_zero) one_ne_zero
     (by rw [show ((1:ℝ) ^ 2 + 0 ^ 2) = 1 by norm_num, Real.sqrt_one, not_lt, Real.sqrt_le_iff]; norm_num)
     (by simp only []; rw [show ((1:ℝ) ^ 2 + 0 ^ 2) = 1 by norm_num, Real.sqrt_one]; norm_num)
+
+/-! ## Deepening (round G07): every branch of `IntReverse` -/
+open GeoVerif.GeocentricProofs
+
+/-- **(a) trigonometric branch of the resolvent cubic** (`disc < 0`, which forces `r < 0`):
+`u = r(1 + 2cos(atan2(√−disc, −(S + r³))/3))` is the root of `u³ − 3r u² = 2S` in `(3r, 0)` -/
+theorem vermU_trig_spec (S r : ℝ) (hS : 0 < S) (hdisc : S * (2 * r ^ 3 + S) < 0) :
+    (vermU S r) ^ 3 - 3 * r * (vermU S r) ^ 2 = 2 * S ∧ 3 * r < vermU S r ∧ vermU S r < 0 :=
+  vermU_trig S r hS hdisc
+
+/-- non-vacuity: `S = 1/100`, `r = −1` is in the trigonometric branch -/
+example : (0:ℝ) < 1 / 100 ∧ (1 / 100 : ℝ) * (2 * (-1) ^ 3 + 1 / 100) < 0 := by norm_num
+
+/-- **where the code takes the trigonometric branch**: with `S = e⁴pq/4`, `r = (p + q − e⁴)/6` and `p, q > 0` the
+discriminant `S(2r³ + S)` is negative exactly strictly inside the evolute (astroid) `p^⅓ + q^⅓ < (e⁴)^⅓`, written
+polynomially as `27 e⁴ p q < (e⁴ − p − q)³` -/
+theorem trig_branch_domain (e4 p q : ℝ) (he : 0 < e4) (hp : 0 < p) (hq : 0 < q) :
+    e4 * p * q / 4 * (2 * ((p + q - e4) / 6) ^ 3 + e4 * p * q / 4) < 0 ↔ 27 * e4 * p * q < (e4 - p - q) ^ 3 := by
+  have hS : 0 < e4 * p * q / 4 := by positivity
+  have e : 2 * ((p + q - e4) / 6) ^ 3 + e4 * p * q / 4 = (27 * e4 * p * q - (e4 - p - q) ^ 3) / 108 := by ring
+  rw [e]
+  constructor
+  · intro h
+    have := (pos_iff_neg_of_mul_neg h).mp hS
+    linarith
+  · intro h
+    exact mul_neg_of_pos_of_neg hS (by linarith)
+
+/-- non-vacuity: `e⁴ = 1`, `p = q = 1/100` lies inside the evolute -/
+example : (27:ℝ) * 1 * (1 / 100) * (1 / 100) < (1 - 1 / 100 - 1 / 100) ^ 3 := by norm_num
+
+/-- **(a)+(b) Vermeille's `k` in every case the general branch is entered with**, oblate and prolate: for `e² ≠ 0`,
+`p, q ≥ 0` (the swapped pair of the code) and `¬(e⁴q = 0 ∧ r ≤ 0)` — both signs of the discriminant, `p = 0` (a point
+of the axis resp. the equatorial plane) and `q = 0, r > 0` included — the pair returned by `vermK` is `(k, k + e²)`
+(oblate) resp. `(k − e², k)` (prolate) with `k > 0` the root of `p/(k + |e²|)² + q/k² = 1` -/
+theorem vermK_spec (a f p q : ℝ) (he : f * (2 - f) ≠ 0) (hp : 0 ≤ p) (hq : 0 ≤ q)
+    (hbr : ¬ ((f * (2 - f)) ^ 2 * q = 0 ∧ (p + q - (f * (2 - f)) ^ 2) / 6 ≤ 0)) (prolate : Bool) :
+    let kk := vermK (⟨a, f⟩ : Ell ℝ) p q ((p + q - (f * (2 - f)) ^ 2) / 6) prolate
+    let k := if prolate then kk.2 else kk.1
+    0 < k ∧ kk = (if prolate then k - f * (2 - f) else k, if prolate then k else k + f * (2 - f)) ∧
+    p / (k + |f * (2 - f)|) ^ 2 + q / k ^ 2 = 1 := by
+  intro kk k
+  obtain ⟨h1, h2⟩ := vermKk_spec (f * (2 - f)) p q he hp hq hbr
+  have hkk : kk = _ := vermK_real a f p q ((p + q - (f * (2 - f)) ^ 2) / 6) prolate
+  cases prolate
+  · have hk : k = vermKk (f * (2 - f)) p q ((p + q - (f * (2 - f)) ^ 2) / 6) := by
+      show (if false = true then kk.2 else kk.1) = _
+      rw [hkk]; rfl
+    rw [hk]; exact ⟨h1, hkk, h2⟩
+  · have hk : k = vermKk (f * (2 - f)) p q ((p + q - (f * (2 - f)) ^ 2) / 6) := by
+      show (if true = true then kk.2 else kk.1) = _
+      rw [hkk]; rfl
+    rw [hk]; exact ⟨h1, hkk, h2⟩
+
+/-- non-vacuity of `vermK_spec` in the prolate, trigonometric case: `f = −1` (`e² = −3`), `p = q = 1/100` -/
+example : ((-1:ℝ) * (2 - -1) ≠ 0) ∧ ¬ (((-1:ℝ) * (2 - -1)) ^ 2 * (1 / 100) = 0 ∧ (1 / 100 + 1 / 100 - ((-1:ℝ) * (2 - -1)) ^ 2) / 6 ≤ 0) := by
+  constructor <;> norm_num
+
+/--
+**(a)–(d) `IntReverse` inverts `IntForward` in every branch below the far-field threshold.**  For every ellipsoid
+(`a > 0`, `f < 1`: oblate, prolate, sphere) and every point `(X, Y, Z)` with `|P| ≤ maxrad` — general position on either
+side of the evolute (Cardano and trigonometric branch), the rotation axis, the equatorial plane, the centre, the sphere
+branch, and inside the singular disc (oblate) / singular segment (prolate) where the limiting formulas are used — the
+forward image of the computed `(sin φ, cos φ, sin λ, cos λ, h)` is the point itself.
+-/
+theorem reverse_closes (a f maxrad X Y Z : ℝ) (ha : 0 < a) (hf : f < 1)
+    (hmax : ¬ maxrad < Real.sqrt (X ^ 2 + Y ^ 2 + Z ^ 2)) :
+    let E : Ell ℝ := ⟨a, f⟩
+    let rv := reverse E maxrad X Y Z
+    forward E rv.sphi rv.cphi rv.slam rv.clam rv.h = (X, Y, Z) := by
+  intro E rv
+  rw [← nested_norm] at hmax
+  obtain ⟨hm, hsl, hcl⟩ := reverse_facts a f maxrad X Y Z ha hf hmax
+  obtain ⟨_, hcx, hcy⟩ := lon_part X Y
+  show forward (⟨a, f⟩ : Ell ℝ) (reverse (⟨a, f⟩ : Ell ℝ) maxrad X Y Z).sphi _ _ _ _ = _
+  rw [forward_real, hm.clR, hm.clZ, hsl, hcl]
+  exact Prod.ext hcx (Prod.ext hcy rfl)
+
+/-- non-vacuity, trigonometric branch: `a = 1`, `f = 1/2` (`e⁴ = 9/16`), the point `(1/10, 0, 1/10)` has
+`p = 1/100`, `q = 1/400`, inside the evolute -/
+example : (27:ℝ) * (9 / 16) * (1 / 100) * (1 / 400) < (9 / 16 - 1 / 100 - 1 / 400) ^ 3 := by norm_num
+example : forward (⟨1, 1/2⟩ : Ell ℝ) (reverse (⟨1, 1/2⟩ : Ell ℝ) 10 (1/10) 0 (1/10)).sphi (reverse (⟨1, 1/2⟩ : Ell ℝ) 10 (1/10) 0 (1/10)).cphi
+    (reverse (⟨1, 1/2⟩ : Ell ℝ) 10 (1/10) 0 (1/10)).slam (reverse (⟨1, 1/2⟩ : Ell ℝ) 10 (1/10) 0 (1/10)).clam
+    (reverse (⟨1, 1/2⟩ : Ell ℝ) 10 (1/10) 0 (1/10)).h = (1/10, 0, 1/10) :=
+  reverse_closes 1 (1/2) 10 (1/10) 0 (1/10) (by norm_num) (by norm_num)
+    (by rw [not_lt, Real.sqrt_le_iff]; norm_num)
+/-- non-vacuity, prolate, inside the singular segment: `a = 1`, `f = −1`, the point `(0, 0, 1)` (`|Z| ≤ a|e²|/(1−f) = 3/2`) -/
+example : forward (⟨1, -1⟩ : Ell ℝ) (reverse (⟨1, -1⟩ : Ell ℝ) 10 0 0 1).sphi (reverse (⟨1, -1⟩ : Ell ℝ) 10 0 0 1).cphi
+    (reverse (⟨1, -1⟩ : Ell ℝ) 10 0 0 1).slam (reverse (⟨1, -1⟩ : Ell ℝ) 10 0 0 1).clam (reverse (⟨1, -1⟩ : Ell ℝ) 10 0 0 1).h = (0, 0, 1) :=
+  reverse_closes 1 (-1) 10 0 0 1 (by norm_num) (by norm_num) (by rw [not_lt, Real.sqrt_le_iff]; norm_num)
+/-- non-vacuity, the centre of a sphere -/
+example : forward (⟨1, 0⟩ : Ell ℝ) (reverse (⟨1, 0⟩ : Ell ℝ) 10 0 0 0).sphi (reverse (⟨1, 0⟩ : Ell ℝ) 10 0 0 0).cphi
+    (reverse (⟨1, 0⟩ : Ell ℝ) 10 0 0 0).slam (reverse (⟨1, 0⟩ : Ell ℝ) 10 0 0 0).clam (reverse (⟨1, 0⟩ : Ell ℝ) 10 0 0 0).h = (0, 0, 0) :=
+  reverse_closes 1 0 10 0 0 0 (by norm_num) (by norm_num) (by rw [not_lt, Real.sqrt_le_iff]; norm_num)
+
+/--
+**(g) in every branch — far field included — the pairs handed to `Rotation` and to `atan2d` are unit vectors**, and
+`cos φ ≥ 0` (seeded C07E dropped the normalisation in the sphere branch)
+-/
+theorem reverse_unit (a f maxrad X Y Z : ℝ) (ha : 0 < a) (hf : f < 1) (hmr : 0 ≤ maxrad) :
+    let rv := reverse (⟨a, f⟩ : Ell ℝ) maxrad X Y Z
+    rv.sphi ^ 2 + rv.cphi ^ 2 = 1 ∧ rv.slam ^ 2 + rv.clam ^ 2 = 1 ∧ 0 ≤ rv.cphi := by
+  intro rv
+  by_cases hmax : maxrad < Real.sqrt (Real.sqrt (X ^ 2 + Y ^ 2) ^ 2 + Z ^ 2)
+  · obtain ⟨h1, h2, h3, _⟩ := reverse_far_facts a f maxrad X Y Z hmr hmax
+    exact ⟨h1, h3, h2⟩
+  · obtain ⟨hm, hsl, hcl⟩ := reverse_facts a f maxrad X Y Z ha hf hmax
+    obtain ⟨hu, _, _⟩ := lon_part X Y
+    refine ⟨hm.unit, ?_, hm.cpos⟩
+    show (reverse (⟨a, f⟩ : Ell ℝ) maxrad X Y Z).slam ^ 2 + (reverse (⟨a, f⟩ : Ell ℝ) maxrad X Y Z).clam ^ 2 = 1
+    rw [hsl, hcl]; exact hu
+
+/-- the matrix returned by `Reverse` is a rotation matrix (orthogonal, determinant `+1`) in every branch -/
+theorem reverseM_frame_isRot (a f maxrad X Y Z : ℝ) (ha : 0 < a) (hf : f < 1) (hmr : 0 ≤ maxrad) :
+    IsRot (reverseM (⟨a, f⟩ : Ell ℝ) maxrad X Y Z).M := by
+  obtain ⟨h1, h2, _⟩ := reverse_unit a f maxrad X Y Z ha hf hmr
+  exact rotation_isRot _ _ _ _ h1 h2
+
+theorem sind_atan2d (s c : ℝ) (h : s ^ 2 + c ^ 2 = 1) : sind (atan2d s c) = s ∧ cosd (atan2d s c) = c := by
+  obtain ⟨h1, h2⟩ := arg_unit s c h
+  constructor
+  · show Real.sin (Complex.arg ⟨c, s⟩ * ((180 : ℕ) : ℝ) / Real.pi * Real.pi / ((180 : ℕ) : ℝ)) = s
+    push_cast; rw [deg_rad]; exact h1
+  · show Real.cos (Complex.arg ⟨c, s⟩ * ((180 : ℕ) : ℝ) / Real.pi * Real.pi / ((180 : ℕ) : ℝ)) = c
+    push_cast; rw [deg_rad]; exact h2
+
+/--
+**(g) the matrix returned by `Reverse` is the east-north-up frame AT THE RETURNED `(lat, lon)`**, in every branch: it
+equals `Rotation(sin lat°, cos lat°, sin lon°, cos lon°)` — the matrix `Forward` returns at that position
+-/
+theorem reverseM_frame_is_enu (a f maxrad X Y Z : ℝ) (ha : 0 < a) (hf : f < 1) (hmr : 0 ≤ maxrad) :
+    let o := reverseM (⟨a, f⟩ : Ell ℝ) maxrad X Y Z
+    o.M = rotation (sind o.lat) (cosd o.lat) (sind o.lon) (cosd o.lon) ∧
+    o.M = (forwardM (⟨a, f⟩ : Ell ℝ) (sind o.lat) (cosd o.lat) (sind o.lon) (cosd o.lon) o.h).2 := by
+  intro o
+  obtain ⟨h1, h2, _⟩ := reverse_unit a f maxrad X Y Z ha hf hmr
+  obtain ⟨e1, e2⟩ := sind_atan2d _ _ h1
+  obtain ⟨e3, e4⟩ := sind_atan2d _ _ h2
+  have : o.M = rotation (sind o.lat) (cosd o.lat) (sind o.lon) (cosd o.lon) := by
+    show rotation _ _ _ _ = rotation (sind (atan2d _ _)) (cosd (atan2d _ _)) (sind (atan2d _ _)) (cosd (atan2d _ _))
+    rw [e1, e2, e3, e4]
+  exact ⟨this, this⟩
+
+/-- **(g) ranges, for every input**: `|lat| ≤ 90`, `−180 < lon ≤ 180` -/
+theorem reverseM_ranges (a f maxrad X Y Z : ℝ) (ha : 0 < a) (hf : f < 1) (hmr : 0 ≤ maxrad) :
+    let o := reverseM (⟨a, f⟩ : Ell ℝ) maxrad X Y Z
+    |o.lat| ≤ 90 ∧ -180 < o.lon ∧ o.lon ≤ 180 := by
+  intro o
+  obtain ⟨_, _, h3⟩ := reverse_unit a f maxrad X Y Z ha hf hmr
+  have hpi := Real.pi_pos
+  set rv := reverse (⟨a, f⟩ : Ell ℝ) maxrad X Y Z with hrv
+  have hlat : o.lat = Complex.arg ⟨rv.cphi, rv.sphi⟩ * 180 / Real.pi := by
+    show Complex.arg ⟨rv.cphi, rv.sphi⟩ * ((180 : ℕ) : ℝ) / Real.pi = _
+    push_cast; rfl
+  have hlon : o.lon = Complex.arg ⟨rv.clam, rv.slam⟩ * 180 / Real.pi := by
+    show Complex.arg ⟨rv.clam, rv.slam⟩ * ((180 : ℕ) : ℝ) / Real.pi = _
+    push_cast; rfl
+  have hA : |Complex.arg ⟨rv.cphi, rv.sphi⟩| ≤ Real.pi / 2 := Complex.abs_arg_le_pi_div_two_iff.mpr h3
+  have hB1 := Complex.neg_pi_lt_arg ⟨rv.clam, rv.slam⟩
+  have hB2 := Complex.arg_le_pi ⟨rv.clam, rv.slam⟩
+  refine ⟨?_, ?_, ?_⟩
+  · rw [hlat, abs_div, abs_mul, abs_of_pos hpi, abs_of_pos (by norm_num : (0:ℝ) < 180), div_le_iff₀ hpi]
+    nlinarith
+  · rw [hlon, lt_div_iff₀ hpi]; nlinarith
+  · rw [hlon, div_le_iff₀ hpi]; nlinarith
+
+/-- **end to end in degrees**: `Forward` at the `(lat, lon, h)` returned by `Reverse` gives back the point (below the
+far-field threshold), and both calls return the same matrix -/
+theorem forwardM_reverseM (a f maxrad X Y Z : ℝ) (ha : 0 < a) (hf : f < 1) (hmr : 0 ≤ maxrad)
+    (hmax : ¬ maxrad < Real.sqrt (X ^ 2 + Y ^ 2 + Z ^ 2)) :
+    let E : Ell ℝ := ⟨a, f⟩
+    let o := reverseM E maxrad X Y Z
+    forwardM E (sind o.lat) (cosd o.lat) (sind o.lon) (cosd o.lon) o.h = ((X, Y, Z), o.M) := by
+  intro E o
+  obtain ⟨h1, h2, _⟩ := reverse_unit a f maxrad X Y Z ha hf hmr
+  obtain ⟨e1, e2⟩ := sind_atan2d _ _ h1
+  obtain ⟨e3, e4⟩ := sind_atan2d _ _ h2
+  have hc := reverse_closes a f maxrad X Y Z ha hf hmax
+  show (forward E (sind (atan2d _ _)) (cosd (atan2d _ _)) (sind (atan2d _ _)) (cosd (atan2d _ _)) _,
+        rotation (sind (atan2d _ _)) (cosd (atan2d _ _)) (sind (atan2d _ _)) (cosd (atan2d _ _))) = _
+  rw [e1, e2, e3, e4]
+  exact Prod.ext hc rfl
+
+/--
+**(e) the far-field branch** (`|P| > maxrad ≥ 0`; the code sets `maxrad = 2a/ε`): the returned height is `|P|`, the
+direction is the geocentric one, and the forward image of the result misses `P` by exactly the surface point, i.e. by at
+most the larger semi-axis `a·max(1, 1−f)` — relative to `|P| > 2a/ε` less than `ε/2·max(1, 1−f)`
+-/
+theorem reverse_farfield_bound (a f maxrad X Y Z : ℝ) (ha : 0 < a) (hf : f < 1) (hmr : 0 ≤ maxrad)
+    (hmax : maxrad < Real.sqrt (X ^ 2 + Y ^ 2 + Z ^ 2)) :
+    let E : Ell ℝ := ⟨a, f⟩
+    let rv := reverse E maxrad X Y Z
+    let F := forward E rv.sphi rv.cphi rv.slam rv.clam rv.h
+    rv.h = Real.sqrt (X ^ 2 + Y ^ 2 + Z ^ 2) ∧
+    (F.1 - X) ^ 2 + (F.2.1 - Y) ^ 2 + (F.2.2 - Z) ^ 2 ≤ (a * max 1 (1 - f)) ^ 2 ∧
+    ((F.1 - X) ^ 2 + (F.2.1 - Y) ^ 2 + (F.2.2 - Z) ^ 2) * maxrad ^ 2 ≤ (a * max 1 (1 - f)) ^ 2 * (X ^ 2 + Y ^ 2 + Z ^ 2) := by
+  intro E rv F
+  rw [← nested_norm] at hmax
+  obtain ⟨hu, _, hl, hh, hx, hy, hz⟩ := reverse_far_facts a f maxrad X Y Z hmr hmax
+  obtain ⟨hN, hA⟩ := primeVertical a f rv.sphi rv.cphi ha hf hu
+  set N := a / Real.sqrt (1 - f * (2 - f) * rv.sphi ^ 2) with hNdef
+  have hF : F = ((N + rv.h) * rv.cphi * rv.clam, (N + rv.h) * rv.cphi * rv.slam, ((1 - f) ^ 2 * N + rv.h) * rv.sphi) :=
+    forward_real a f rv.sphi rv.cphi rv.slam rv.clam rv.h
+  have d1 : F.1 - X = N * rv.cphi * rv.clam := by rw [hF]; linear_combination hx
+  have d2 : F.2.1 - Y = N * rv.cphi * rv.slam := by rw [hF]; linear_combination hy
+  have d3 : F.2.2 - Z = (1 - f) ^ 2 * N * rv.sphi := by rw [hF]; linear_combination hz
+  have hb := surface_norm_le a f N rv.sphi rv.cphi hf hA
+  have hsum : (F.1 - X) ^ 2 + (F.2.1 - Y) ^ 2 + (F.2.2 - Z) ^ 2 = (N * rv.cphi) ^ 2 + ((1 - f) ^ 2 * N * rv.sphi) ^ 2 := by
+    rw [d1, d2, d3]; linear_combination ((N * rv.cphi) ^ 2) * hl
+  refine ⟨hh, by rw [hsum]; exact hb, ?_⟩
+  rw [hsum]
+  have hP : maxrad ^ 2 ≤ X ^ 2 + Y ^ 2 + Z ^ 2 := by
+    rw [nested_norm] at hmax
+    have h0 : 0 ≤ X ^ 2 + Y ^ 2 + Z ^ 2 := by positivity
+    have := Real.sq_sqrt h0
+    nlinarith [Real.sqrt_nonneg (X ^ 2 + Y ^ 2 + Z ^ 2)]
+  calc ((N * rv.cphi) ^ 2 + ((1 - f) ^ 2 * N * rv.sphi) ^ 2) * maxrad ^ 2
+      ≤ (a * max 1 (1 - f)) ^ 2 * maxrad ^ 2 := mul_le_mul_of_nonneg_right hb (sq_nonneg _)
+    _ ≤ (a * max 1 (1 - f)) ^ 2 * (X ^ 2 + Y ^ 2 + Z ^ 2) := mul_le_mul_of_nonneg_left hP (sq_nonneg _)
+
+/-- non-vacuity: a point beyond `maxrad` -/
+example : (10:ℝ) < Real.sqrt (100 ^ 2 + 0 ^ 2 + 0 ^ 2) := by
+  rw [Real.lt_sqrt (by norm_num)]; norm_num
+
+
+/--
+**(f) in the far field — partial.**  Full statement one would like: the returned `h` is the distance from `P` to the ellipsoid.
+That is false beyond `maxrad` by construction (`h = |P|`, the code "treats the earth as a point"); what holds, and is proved
+here, is the lower half of `|h − dist(P, ellipsoid)| ≤ max(a, b)`: every point of the ellipsoid is at least
+`h − a·max(1, 1−f)` away from `P` (with `maxrad = 2a/ε` that is a relative `ε/2·max(1, 1−f)` of `h`).  The upper half
+(`dist ≤ h`) is not formalised.
+-/
+theorem reverse_farfield_height_partial (a f maxrad X Y Z : ℝ) (ha : 0 < a) (hf : f < 1) (hmr : 0 ≤ maxrad)
+    (hmax : maxrad < Real.sqrt (X ^ 2 + Y ^ 2 + Z ^ 2))
+    (hbig : a * max 1 (1 - f) ≤ Real.sqrt (X ^ 2 + Y ^ 2 + Z ^ 2)) :
+    let rv := reverse (⟨a, f⟩ : Ell ℝ) maxrad X Y Z
+    ∀ x y z : ℝ, (x ^ 2 + y ^ 2) / a ^ 2 + z ^ 2 / (a * (1 - f)) ^ 2 = 1 →
+      (rv.h - a * max 1 (1 - f)) ^ 2 ≤ (X - x) ^ 2 + (Y - y) ^ 2 + (Z - z) ^ 2 := by
+  intro rv x y z hQ
+  obtain ⟨hh, _, _⟩ := reverse_farfield_bound a f maxrad X Y Z ha hf hmr hmax
+  have hh' : rv.h = Real.sqrt (X ^ 2 + Y ^ 2 + Z ^ 2) := hh
+  rw [hh']
+  set M := a * max 1 (1 - f) with hM
+  set p := Real.sqrt (X ^ 2 + Y ^ 2 + Z ^ 2) with hp
+  have hp0 : 0 ≤ p := Real.sqrt_nonneg _
+  have hp2 : p ^ 2 = X ^ 2 + Y ^ 2 + Z ^ 2 := Real.sq_sqrt (by positivity)
+  have h1f : 0 < 1 - f := by linarith
+  have hMa : a ≤ M := by
+    have := mul_le_mul_of_nonneg_left (le_max_left (1:ℝ) (1 - f)) ha.le
+    rw [hM]; linarith
+  have hMb : a * (1 - f) ≤ M := mul_le_mul_of_nonneg_left (le_max_right (1:ℝ) (1 - f)) ha.le
+  have hM0 : 0 < M := lt_of_lt_of_le ha hMa
+  -- |Q| ≤ M
+  set q := Real.sqrt (x ^ 2 + y ^ 2 + z ^ 2) with hq
+  have hq0 : 0 ≤ q := Real.sqrt_nonneg _
+  have hq2 : q ^ 2 = x ^ 2 + y ^ 2 + z ^ 2 := Real.sq_sqrt (by positivity)
+  have hb0 : 0 < a * (1 - f) := by positivity
+  have hqM : q ^ 2 ≤ M ^ 2 := by
+    have ha2 : a ^ 2 ≤ M ^ 2 := pow_le_pow_left₀ ha.le hMa 2
+    have hb2 : (a * (1 - f)) ^ 2 ≤ M ^ 2 := pow_le_pow_left₀ hb0.le hMb 2
+    have e1 : x ^ 2 + y ^ 2 ≤ M ^ 2 * ((x ^ 2 + y ^ 2) / a ^ 2) := by
+      rw [mul_div_assoc', le_div_iff₀ (by positivity)]
+      have := mul_le_mul_of_nonneg_left ha2 (by positivity : (0:ℝ) ≤ x ^ 2 + y ^ 2)
+      linarith
+    have e2 : z ^ 2 ≤ M ^ 2 * (z ^ 2 / (a * (1 - f)) ^ 2) := by
+      rw [mul_div_assoc', le_div_iff₀ (by positivity)]
+      have := mul_le_mul_of_nonneg_left hb2 (sq_nonneg z)
+      linarith
+    have : M ^ 2 * ((x ^ 2 + y ^ 2) / a ^ 2) + M ^ 2 * (z ^ 2 / (a * (1 - f)) ^ 2) = M ^ 2 := by
+      rw [← mul_add, hQ, mul_one]
+    rw [hq2]; linarith
+  have hqM' : q ≤ M := by
+    have := abs_le_of_sq_le_sq' hqM hM0.le
+    exact this.2
+  -- Cauchy–Schwarz
+  have hcs : (X * x + Y * y + Z * z) ^ 2 ≤ (p * q) ^ 2 := by
+    rw [mul_pow, hp2, hq2]
+    have lag : (X ^ 2 + Y ^ 2 + Z ^ 2) * (x ^ 2 + y ^ 2 + z ^ 2) - (X * x + Y * y + Z * z) ^ 2 =
+        (X * y - Y * x) ^ 2 + (X * z - Z * x) ^ 2 + (Y * z - Z * y) ^ 2 := by ring
+    linarith [sq_nonneg (X * y - Y * x), sq_nonneg (X * z - Z * x), sq_nonneg (Y * z - Z * y)]
+  have hdot : X * x + Y * y + Z * z ≤ p * q := (abs_le_of_sq_le_sq' hcs (by positivity)).2
+  have hexp : (X - x) ^ 2 + (Y - y) ^ 2 + (Z - z) ^ 2 = p ^ 2 - 2 * (X * x + Y * y + Z * z) + q ^ 2 := by
+    rw [hp2, hq2]; ring
+  rw [hexp]
+  have h1 : (p - q) ^ 2 ≤ p ^ 2 - 2 * (X * x + Y * y + Z * z) + q ^ 2 := by
+    have : (p - q) ^ 2 = p ^ 2 - 2 * (p * q) + q ^ 2 := by ring
+    rw [this]; linarith
+  have h2 : (p - M) ^ 2 ≤ (p - q) ^ 2 := pow_le_pow_left₀ (by linarith) (by linarith) 2
+  linarith
+
+/--
+**(f) the height of least magnitude, forward form.**  If the point `forward(φ, λ, h)` lies on the same side of the rotation
+axis and of the equatorial plane as its foot point (`N + h ≥ 0` and `(1−f)²N + h ≥ 0`, `N = a/√(1 − e² sin²φ)`), then no
+point of the ellipsoid is closer to it than `|h|` (and the foot point `forward(φ, λ, 0)` is at distance exactly `|h|`,
+`forward_on_normal`): `h` is the signed distance to the ellipsoid.
+-/
+theorem forward_height_least (a f s c sl cl h x y z : ℝ) (ha : 0 < a) (hf : f < 1)
+    (hu : s ^ 2 + c ^ 2 = 1) (hl : sl ^ 2 + cl ^ 2 = 1)
+    (hsR : 0 ≤ a / Real.sqrt (1 - f * (2 - f) * s ^ 2) + h)
+    (hsZ : 0 ≤ (1 - f) ^ 2 * (a / Real.sqrt (1 - f * (2 - f) * s ^ 2)) + h)
+    (hQ : (x ^ 2 + y ^ 2) / a ^ 2 + z ^ 2 / (a * (1 - f)) ^ 2 = 1) :
+    let P := forward (⟨a, f⟩ : Ell ℝ) s c sl cl h
+    h ^ 2 ≤ (P.1 - x) ^ 2 + (P.2.1 - y) ^ 2 + (P.2.2 - z) ^ 2 := by
+  intro P
+  obtain ⟨hN, hA⟩ := primeVertical a f s c ha hf hu
+  have hm : 0 < (1 - f) ^ 2 := pow_pos (by linarith) 2
+  have h1f : (1 - f) ≠ 0 := by linarith
+  have hQ' : (x ^ 2 + y ^ 2) * (1 - f) ^ 2 + z ^ 2 = a ^ 2 * (1 - f) ^ 2 := by
+    have := hQ; field_simp at this; linarith
+  have hP : P = _ := forward_real a f s c sl cl h
+  rw [hP]
+  exact foot_nearest a ((1 - f) ^ 2) _ s c sl cl h x y z hm hN hu hl hA hQ' hsR hsZ
+
+/--
+**(f) `Reverse` returns the height of least magnitude** — in every branch below the far-field threshold, inside the
+singular disc / segment included: no point `(x, y, z)` of the ellipsoid is closer to `(X, Y, Z)` than `|h|`, and the foot
+point (the forward image of the returned `(φ, λ)` at height 0, which lies on the ellipsoid) is at distance exactly `|h|`.
+-/
+theorem reverse_height_least (a f maxrad X Y Z : ℝ) (ha : 0 < a) (hf : f < 1)
+    (hmax : ¬ maxrad < Real.sqrt (X ^ 2 + Y ^ 2 + Z ^ 2)) :
+    let E : Ell ℝ := ⟨a, f⟩
+    let rv := reverse E maxrad X Y Z
+    let Q0 := forward E rv.sphi rv.cphi rv.slam rv.clam 0
+    (∀ x y z : ℝ, (x ^ 2 + y ^ 2) / a ^ 2 + z ^ 2 / (a * (1 - f)) ^ 2 = 1 →
+      rv.h ^ 2 ≤ (X - x) ^ 2 + (Y - y) ^ 2 + (Z - z) ^ 2) ∧
+    (X - Q0.1) ^ 2 + (Y - Q0.2.1) ^ 2 + (Z - Q0.2.2) ^ 2 = rv.h ^ 2 ∧
+    (Q0.1 ^ 2 + Q0.2.1 ^ 2) / a ^ 2 + Q0.2.2 ^ 2 / (a * (1 - f)) ^ 2 = 1 := by
+  intro E rv Q0
+  have hc := reverse_closes a f maxrad X Y Z ha hf hmax
+  rw [← nested_norm] at hmax
+  obtain ⟨hm, hsl, hcl⟩ := reverse_facts a f maxrad X Y Z ha hf hmax
+  obtain ⟨hul, _, _⟩ := lon_part X Y
+  have hl : rv.slam ^ 2 + rv.clam ^ 2 = 1 := by
+    show (reverse (⟨a, f⟩ : Ell ℝ) maxrad X Y Z).slam ^ 2 + (reverse (⟨a, f⟩ : Ell ℝ) maxrad X Y Z).clam ^ 2 = 1
+    rw [hsl, hcl]; exact hul
+  refine ⟨?_, ?_, ?_⟩
+  · intro x y z hQ
+    have := forward_height_least a f rv.sphi rv.cphi rv.slam rv.clam rv.h x y z ha hf hm.unit hl hm.sideR hm.sideZ hQ
+    simp only [] at this
+    have hc' : forward (⟨a, f⟩ : Ell ℝ) rv.sphi rv.cphi rv.slam rv.clam rv.h = (X, Y, Z) := hc
+    rw [hc'] at this
+    exact this
+  · have hn := forward_on_normal (⟨a, f⟩ : Ell ℝ) rv.sphi rv.cphi rv.slam rv.clam rv.h
+    have hc' : forward (⟨a, f⟩ : Ell ℝ) rv.sphi rv.cphi rv.slam rv.clam rv.h = (X, Y, Z) := hc
+    rw [hc'] at hn
+    have hX : X - Q0.1 = rv.h * (rv.cphi * rv.clam) := by have := congrArg Prod.fst hn; simp only [] at this; rw [this]; ring
+    have hY : Y - Q0.2.1 = rv.h * (rv.cphi * rv.slam) := by have := congrArg (fun p => p.2.1) hn; simp only [] at this; rw [this]; ring
+    have hZ : Z - Q0.2.2 = rv.h * rv.sphi := by have := congrArg (fun p => p.2.2) hn; simp only [] at this; rw [this]; ring
+    rw [hX, hY, hZ]
+    linear_combination (rv.h ^ 2 * rv.cphi ^ 2) * hl + (rv.h ^ 2) * hm.unit
+  · have hpos : 0 < 1 - f * (2 - f) * rv.sphi ^ 2 := by
+      have := hm.unit
+      have hmm : 0 < (1 - f) ^ 2 := pow_pos (by linarith) 2
+      have e : 1 - f * (2 - f) * rv.sphi ^ 2 = rv.cphi ^ 2 + (1 - f) ^ 2 * rv.sphi ^ 2 := by linear_combination (-1 : ℝ) * this
+      rw [e]
+      by_cases hs : rv.sphi = 0
+      · have : rv.cphi ^ 2 = 1 := by rw [hs] at this; linarith
+        rw [hs, this]; norm_num
+      · have : 0 < (1 - f) ^ 2 * rv.sphi ^ 2 := by positivity
+        nlinarith [sq_nonneg rv.cphi]
+    exact forward_on_ellipsoid (⟨a, f⟩ : Ell ℝ) rv.sphi rv.cphi rv.slam rv.clam hm.unit hl ha.ne' (by linarith) hpos
+
+
+/--
+**Forward followed by Reverse is the identity** (over ℝ, on the executed model): for a unit pair `(sin φ, cos φ)` with
+`cos φ ≥ 0`, a unit pair `(sin λ, cos λ)` and a height with `N + h > 0` and `(1−e²)N + h > 0` (the point lies strictly on the
+near side of the rotation axis and of the equatorial plane — every `h > −min(N, (1−e²)N)`, in particular all geophysical
+heights), `Reverse` applied to `Forward(φ, λ, h)` (below the far-field threshold) returns `sin φ, cos φ, h` exactly, and
+`sin λ, cos λ` when `cos φ > 0` (on the axis the code returns `λ = 0`).
+-/
+theorem reverse_forward_id (a f maxrad s c sl cl h : ℝ) (ha : 0 < a) (hf : f < 1)
+    (hu : s ^ 2 + c ^ 2 = 1) (hl : sl ^ 2 + cl ^ 2 = 1) (hc : 0 ≤ c)
+    (hsR : 0 < a / Real.sqrt (1 - f * (2 - f) * s ^ 2) + h)
+    (hsZ : 0 < (1 - f) ^ 2 * (a / Real.sqrt (1 - f * (2 - f) * s ^ 2)) + h)
+    (hmax : ¬ maxrad < Real.sqrt ((forward (⟨a, f⟩ : Ell ℝ) s c sl cl h).1 ^ 2 + (forward (⟨a, f⟩ : Ell ℝ) s c sl cl h).2.1 ^ 2 +
+      (forward (⟨a, f⟩ : Ell ℝ) s c sl cl h).2.2 ^ 2)) :
+    let P := forward (⟨a, f⟩ : Ell ℝ) s c sl cl h
+    let rv := reverse (⟨a, f⟩ : Ell ℝ) maxrad P.1 P.2.1 P.2.2
+    rv.sphi = s ∧ rv.cphi = c ∧ rv.h = h ∧ (0 < c → rv.slam = sl ∧ rv.clam = cl) ∧ (c = 0 → rv.slam = 0 ∧ rv.clam = 1) := by
+  intro P rv
+  have hP : P = _ := forward_real a f s c sl cl h
+  set N := a / Real.sqrt (1 - f * (2 - f) * s ^ 2) with hN
+  set X := (N + h) * c * cl with hX
+  set Y := (N + h) * c * sl with hY
+  set Z := ((1 - f) ^ 2 * N + h) * s with hZ
+  have hP1 : P.1 = X := by rw [hP]
+  have hP2 : P.2.1 = Y := by rw [hP]
+  have hP3 : P.2.2 = Z := by rw [hP]
+  have hR : Real.sqrt (X ^ 2 + Y ^ 2) = (N + h) * c := by
+    have : X ^ 2 + Y ^ 2 = ((N + h) * c) ^ 2 := by rw [hX, hY]; linear_combination (((N + h) * c) ^ 2) * hl
+    rw [this, Real.sqrt_sq (mul_nonneg hsR.le hc)]
+  have hmax' : ¬ maxrad < Real.sqrt (Real.sqrt (X ^ 2 + Y ^ 2) ^ 2 + Z ^ 2) := by
+    rw [nested_norm]; rw [hP1, hP2, hP3] at hmax; exact hmax
+  obtain ⟨hm, hsl, hcl⟩ := reverse_facts a f maxrad X Y Z ha hf hmax'
+  have hrv : rv = reverse (⟨a, f⟩ : Ell ℝ) maxrad X Y Z := by
+    show reverse (⟨a, f⟩ : Ell ℝ) maxrad P.1 P.2.1 P.2.2 = _
+    rw [hP1, hP2, hP3]
+  rw [← hrv, hR] at hm hsl hcl
+  have h1 : Merid a f s c h ((N + h) * c) Z := ⟨hu, hc, rfl, rfl, hsR.le, hsZ.le⟩
+  obtain ⟨e1, e2, e3⟩ := merid_unique a f s c h rv.sphi rv.cphi rv.h ((N + h) * c) Z ha hf h1 hm hsR hsZ
+  refine ⟨e1, e2, e3, ?_, ?_⟩
+  · intro hcpos
+    have hne : (N + h) * c ≠ 0 := (mul_pos hsR hcpos).ne'
+    rw [hsl, hcl, if_neg hne, if_neg hne, hX, hY]
+    constructor <;> field_simp
+  · intro hc0
+    have hz : (N + h) * c = 0 := by rw [hc0, mul_zero]
+    rw [hsl, hcl, if_pos hz, if_pos hz]
+    exact ⟨rfl, rfl⟩
+
+/-- non-vacuity: the unit sphere, `φ = 0`, `λ = 0`, `h = 1` (so `N + h = 2 > 0`) -/
+example : (0:ℝ) < 1 / Real.sqrt (1 - 0 * (2 - 0) * (0:ℝ) ^ 2) + 1 := by
+  rw [show (1:ℝ) - 0 * (2 - 0) * (0:ℝ) ^ 2 = 1 by norm_num, Real.sqrt_one]; norm_num
+
+/-! ## LocalCartesian: `Reset`, the matrix-returning overloads, `Rotate`/`Unrotate` -/
+
+/-- `Reset`: the frame of the local system is `Geocentric::Rotation` at the origin `(lat0, lon0)`, a rotation matrix;
+the origin of the local system is the forward image of `(lat0, lon0, h0)` -/
+theorem reset_frame (a f s c sl cl h0 : ℝ) (hu : s ^ 2 + c ^ 2 = 1) (hl : sl ^ 2 + cl ^ 2 = 1) :
+    let O := reset (⟨a, f⟩ : Ell ℝ) s c sl cl h0
+    O.r = rotation s c sl cl ∧ IsRot O.r ∧ (O.x0, O.y0, O.z0) = forward (⟨a, f⟩ : Ell ℝ) s c sl cl h0 := by
+  intro O
+  exact ⟨rfl, rotation_isRot s c sl cl hu hl, rfl⟩
+
+/-- `MatrixMultiply(M)` replaces `M` by `rᵀ·M` -/
+theorem matrixMultiply_spec (r M : List ℝ) : toMat (matrixMultiply r M) = (toMat r).transpose * toMat M :=
+  toMat_matrixMultiply r M
+
+/-- the composition of two rotations is a rotation: the matrix returned by `LocalCartesian::Forward/Reverse` is orthogonal
+with determinant `+1` whenever the frame of the origin and the frame of the point are -/
+theorem matrixMultiply_rotation (r M : List ℝ) (hr : IsRot r) (hM : IsRot M) : IsRot (matrixMultiply r M) :=
+  matrixMultiply_isRot r M hr hM
+
+/-- at the origin of the local system `Forward` returns `(0, 0, 0)` and the identity matrix -/
+theorem localForwardM_at_origin (a f s c sl cl h0 : ℝ) (hu : s ^ 2 + c ^ 2 = 1) (hl : sl ^ 2 + cl ^ 2 = 1) :
+    let E : Ell ℝ := ⟨a, f⟩
+    let o := localForwardM E (reset E s c sl cl h0) s c sl cl h0
+    o.1 = (0, 0, 0) ∧ toMat o.2 = 1 := by
+  intro E o
+  constructor
+  · show localForward (reset E s c sl cl h0) _ _ _ = _
+    exact local_origin (reset E s c sl cl h0)
+  · exact matrixMultiply_self _ (rotation_isRot s c sl cl hu hl)
+
+/-- the matrix returned by `LocalCartesian::Forward` is a rotation -/
+theorem localForwardM_frame_isRot (E : Ell ℝ) (O : Origin ℝ) (s c sl cl h : ℝ) (hO : IsRot O.r)
+    (hu : s ^ 2 + c ^ 2 = 1) (hl : sl ^ 2 + cl ^ 2 = 1) : IsRot (localForwardM E O s c sl cl h).2 :=
+  matrixMultiply_isRot _ _ hO (rotation_isRot s c sl cl hu hl)
+
+/-- the matrix returned by `LocalCartesian::Reverse` is a rotation, for every local point (every branch of the geocentric
+reverse) -/
+theorem localReverseM_frame_isRot (a f maxrad : ℝ) (O : Origin ℝ) (x y z : ℝ) (ha : 0 < a) (hf : f < 1) (hmr : 0 ≤ maxrad)
+    (hO : IsRot O.r) : IsRot (localReverseM (⟨a, f⟩ : Ell ℝ) maxrad O x y z).M :=
+  matrixMultiply_isRot _ _ hO (reverseM_frame_isRot a f maxrad _ _ _ ha hf hmr)
+
+/-- `LocalCartesian` reverse followed by forward (around the geocentric conversions) is the identity -/
+theorem local_forward_reverse (O : Origin ℝ) (x y z : ℝ) (hO : IsRot O.r) :
+    let P := localReverse O x y z
+    localForward O P.1 P.2.1 P.2.2 = (x, y, z) := by
+  have c00 := hO.col 0 0; have c01 := hO.col 0 1; have c02 := hO.col 0 2
+  have c11 := hO.col 1 1; have c12 := hO.col 1 2; have c22 := hO.col 2 2
+  have c10 := hO.col 1 0; have c20 := hO.col 2 0; have c21 := hO.col 2 1
+  simp at c00 c01 c02 c11 c12 c22 c10 c20 c21
+  simp only [localForward, localReverse, Prod.mk.injEq]
+  refine ⟨?_, ?_, ?_⟩
+  · linear_combination x * c00 + y * c01 + z * c02
+  · linear_combination x * c10 + y * c11 + z * c12
+  · linear_combination x * c20 + y * c21 + z * c22
+
+/-- `IntForward`'s inlined rotation is `Unrotate` of the offset from the origin, `IntReverse`'s is `Rotate` -/
+theorem localForward_eq_unrotate (O : Origin ℝ) (xc yc zc : ℝ) :
+    localForward O xc yc zc = unrotate O.r (xc - O.x0) (yc - O.y0) (zc - O.z0) := rfl
+
+theorem localReverse_eq_rotate (O : Origin ℝ) (x y z : ℝ) :
+    localReverse O x y z = (O.x0 + (rotate O.r x y z).1, O.y0 + (rotate O.r x y z).2.1, O.z0 + (rotate O.r x y z).2.2) := by
+  simp only [localReverse, rotate, Prod.mk.injEq]
+  refine ⟨?_, ?_, ?_⟩ <;> ring
+
+/-- `Unrotate` undoes `Rotate` and conversely, for a rotation matrix -/
+theorem unrotate_rotate (M : List ℝ) (x y z : ℝ) (hM : IsRot M) :
+    let v := rotate M x y z
+    unrotate M v.1 v.2.1 v.2.2 = (x, y, z) := by
+  have h := local_forward_reverse ⟨0, 0, 0, M⟩ x y z hM
+  simp only [localForward, localReverse, zero_add, sub_zero] at h
+  simpa only [rotate, unrotate] using h
+
+theorem rotate_unrotate (M : List ℝ) (X Y Z : ℝ) (hM : IsRot M) :
+    let v := unrotate M X Y Z
+    rotate M v.1 v.2.1 v.2.2 = (X, Y, Z) := by
+  have r00 := hM.row 0 0; have r01 := hM.row 0 1; have r02 := hM.row 0 2
+  have r11 := hM.row 1 1; have r12 := hM.row 1 2; have r22 := hM.row 2 2
+  have r10 := hM.row 1 0; have r20 := hM.row 2 0; have r21 := hM.row 2 1
+  simp at r00 r01 r02 r11 r12 r22 r10 r20 r21
+  simp only [rotate, unrotate, Prod.mk.injEq]
+  refine ⟨?_, ?_, ?_⟩
+  · linear_combination X * r00 + Y * r01 + Z * r02
+  · linear_combination X * r10 + Y * r11 + Z * r12
+  · linear_combination X * r20 + Y * r21 + Z * r22
+
+/--
+**`LocalCartesian::Forward` inverts `LocalCartesian::Reverse`, matrices included**: for a local system whose frame is a
+rotation (e.g. any `reset`), and a local point whose geocentric image is below the far-field threshold, `Forward` at the
+`(lat, lon, h)` returned by `Reverse` gives back `(x, y, z)` and the same matrix.
+-/
+theorem localForwardM_reverseM (a f maxrad : ℝ) (O : Origin ℝ) (x y z : ℝ) (ha : 0 < a) (hf : f < 1) (hmr : 0 ≤ maxrad)
+    (hO : IsRot O.r)
+    (hmax : ¬ maxrad < Real.sqrt ((localReverse O x y z).1 ^ 2 + (localReverse O x y z).2.1 ^ 2 + (localReverse O x y z).2.2 ^ 2)) :
+    let E : Ell ℝ := ⟨a, f⟩
+    let o := localReverseM E maxrad O x y z
+    localForwardM E O (sind o.lat) (cosd o.lat) (sind o.lon) (cosd o.lon) o.h = ((x, y, z), o.M) := by
+  intro E o
+  set P := localReverse O x y z with hP
+  have h1 := forwardM_reverseM a f maxrad P.1 P.2.1 P.2.2 ha hf hmr hmax
+  simp only [forwardM, Prod.mk.injEq] at h1
+  obtain ⟨hpos, hM⟩ := h1
+  have hlr := local_forward_reverse O x y z hO
+  simp only [] at hlr
+  show (localForward O (forward E _ _ _ _ _).1 (forward E _ _ _ _ _).2.1 (forward E _ _ _ _ _).2.2,
+        matrixMultiply O.r (rotation _ _ _ _)) = _
+  have hpos' : forward E (sind o.lat) (cosd o.lat) (sind o.lon) (cosd o.lon) o.h = (P.1, P.2.1, P.2.2) := hpos
+  have hM' : rotation (sind o.lat) (cosd o.lat) (sind o.lon) (cosd o.lon) = (reverseM E maxrad P.1 P.2.1 P.2.2).M := hM
+  rw [hpos', hM']
+  exact Prod.ext hlr rfl
+
+/-- non-vacuity: the frame of a `reset` at the north pole of the unit sphere satisfies the hypotheses (`IsRot`) -/
+example : IsRot (reset (⟨1, 0⟩ : Ell ℝ) 1 0 0 1 0).r := (reset_frame 1 0 1 0 0 1 0 (by norm_num) (by norm_num)).2.1
 
 end GeoVerif.Props.C07
